@@ -975,7 +975,8 @@ LCONFIG = {
     'adupdates': dict(CONFIG['adupdates'], vlists=[], oplists=['L', 'g'], dicts=[], splists=[],
                       options=['callback_loop', 'callback_loop_in']),
     'adupdates_simple': dict(CONFIG['adupdates_simple'], vlists=[], oplists=['L', 'g'], splists=[]),
-    'kaczmarz': dict(CONFIG['kaczmarz'], vectors=['x'], vlists=['rhs'], dicts=[], splists=[], options=[]),
+    'kaczmarz': dict(CONFIG['kaczmarz'], vectors=['x'], vlists=['rhs'], dicts=[], splists=[],
+                     options=['callback_loop', 'callback_loop_in']),
     'osmlem': dict(CONFIG['osmlem'], vectors=['x'], vlists=['data'], scalars=['niter', 'eps'],
                    optional=['sensitivities'],
                    flags=dict(CONFIG['osmlem']['flags'], **{'sensitivities is None': True})),
